@@ -456,10 +456,11 @@ class Hydrodynamics:
         sol = root(
             matching, self._mappingT(Tpm0), method="hybr", options={"xtol": self.atol}
         )
-        self.success = (
-            sol.success or np.sum(sol.fun**2) < 1e-6
+        self.success = bool(
+            np.sum(sol.fun**2) < 1e-6
         )  # If the error is small enough,
-        # we consider that root has converged even if it returns False.
+        # we consider that root has converged even if it returns False. The converse
+        # is needed too: hybr can report success (its step criterion) far from a root.
         [Tp, Tm] = self._inverseMappingT(sol.x)
 
         vmsq = min(vw**2, self.thermodynamics.csqLowT(Tm))
